@@ -2,7 +2,7 @@
 # seeded_verify.sh <Cxx> [check-id] [runs]: confirm an independently written breaking change
 # (worktree /tmp/wt/Cxx with the change applied, deliverables in /tmp/seeded_out/Cxx) and run the check.
 id=$1; chk=${2:-$1}; runs=${3:-}
-WT=/tmp/wt/$id; OUT=/tmp/seeded_out/$id; DST=/verif/seeded/$id
+if [ "${ROUND:-1}" = "2" ]; then WT=/tmp/wt/R2$id; OUT=/tmp/seeded2/$id; DST=/verif/seeded/$id-r2; else WT=/tmp/wt/$id; OUT=/tmp/seeded_out/$id; DST=/verif/seeded/$id; fi
 [ -f $OUT/patch.diff ] || { echo "no patch for $id"; exit 1; }
 mkdir -p $DST
 demo=$(ls $OUT | grep -E "^demo.*\.rs$" | head -1)
@@ -10,19 +10,20 @@ echo "== $id: patch $(grep -c '^[+-][^+-]' $OUT/patch.diff) changed lines, demo 
 cd $WT
 # put the worktree into a known state (git stash is shared between worktrees and must not be used)
 git checkout -q -- . ; git apply $OUT/patch.diff || { echo "patch does not apply"; exit 1; }
-mkdir -p tests; cp $OUT/$demo tests/seeded_demo.rs
+TDIR=tests; PKG=""; if [ "$id" = "C19" ]; then TDIR=static-metric/tests; PKG="-p prometheus-static-metric"; fi
+mkdir -p $TDIR; cp $OUT/$demo $TDIR/seeded_demo.rs
 # 1. existing suite with the change (demo excluded)
 suite=$(cargo test --workspace --offline 2>&1 | grep -E "^test result" | grep -v "seeded_demo" ); 
-mv tests/seeded_demo.rs /tmp/seeded_demo_$id.rs
+mv $TDIR/seeded_demo.rs /tmp/seeded_demo_$id.rs
 suite_with=$(cargo test --workspace --offline 2>&1 | grep -E "^test result: FAILED|^error" | head -3)
-mv /tmp/seeded_demo_$id.rs tests/seeded_demo.rs
+mv /tmp/seeded_demo_$id.rs $TDIR/seeded_demo.rs
 # 2. demo with the change
-timeout 600 cargo test --offline --test seeded_demo > /tmp/demo_with_$id.log 2>&1; rc_with=$?
+timeout 600 cargo test --offline $PKG --test seeded_demo > /tmp/demo_with_$id.log 2>&1; rc_with=$?
 # 3. demo without the change
 git apply -R $OUT/patch.diff
-timeout 600 cargo test --offline --test seeded_demo > /tmp/demo_without_$id.log 2>&1; rc_without=$?
+timeout 600 cargo test --offline $PKG --test seeded_demo > /tmp/demo_without_$id.log 2>&1; rc_without=$?
 git apply $OUT/patch.diff
-rm -f tests/seeded_demo.rs
+rm -f $TDIR/seeded_demo.rs
 echo "suite with change: ${suite_with:-green}; demo with change rc=$rc_with; demo without change rc=$rc_without"
 # 4. our check
 cd /verif
